@@ -335,6 +335,7 @@ package app
 //@   assert_at IssueFailover#2 C05.file_crash [C05]: resultof("approveFailover", 2) == nil && !lightMaintenance && maintenance == nil && errIs(resultof("GetCurrentSwitchover", 1), dcs.ErrNotFound) && resultof("AcquireLock", 1) && callarg0 == master && crashRecovered(app, clusterStateDcs, master)
 //@   assert_at approveFailover#1 C05.clock_bad [C05]: app.t.m[NodeFailedAt][master] != 0 && (old(app.t.m[NodeFailedAt][master]) != 0 ==> app.t.m[NodeFailedAt][master] == old(app.t.m[NodeFailedAt][master]))
 //@   assert_at repairOfflineMode#1 C05.clock_good [C05]: (!masterHealthBad(clusterStateDcs, master) ==> app.t.m[NodeFailedAt][master] == 0) && (masterHealthBad(clusterStateDcs, master) ==> lightMaintenance && app.t.m[NodeFailedAt][master] != 0) && clusterState[master].PingOk
+//@   assert_at return#* C05.clock_reset [C05]: reached("GetCurrentSwitchover", 1) && errIs(resultof("GetCurrentSwitchover", 1), dcs.ErrNotFound) && clusterStateDcs[master] != nil && clusterState[master] != nil && !masterHealthBad(clusterStateDcs, master) && !clusterState[master].PingOk ==> app.t.m[NodeFailedAt][master] == 0
 //@   assert_at return#* C05.suspicious [C05]: reached("GetCurrentSwitchover", 1) && errIs(resultof("GetCurrentSwitchover", 1), dcs.ErrNotFound) && !masterHealthBad(clusterStateDcs, master) && !clusterState[master].PingOk ==> e_CreateSwitch == old(e_CreateSwitch) && mysqlUntouched() && !reached("repairCluster", 1) && !reached("repairOfflineMode", 1) && !reached("updateActiveNodes", 1)
 //@   assert_at FinishSwitchover#* C06.finish_cases [C06]: (callarg1 == nil ==> reached("performSwitchover", 1) && resultof("performSwitchover", 1) == nil) && (callarg1 != nil ==> !reached("performSwitchover", 1) && !reached("StartSwitchover", 1))
 //@   assert_at FinishSwitchover#2 C06.reject_unapproved [C06]: resultof("approveSwitchover", 1) != nil && callarg1 == resultof("approveSwitchover", 1)
